@@ -26,8 +26,28 @@ func TestVerifBoundedFileMetadata(t *testing.T) {
 		for id := range state {
 			ids = append(ids, id)
 		}
-		if err := f.Save(state, map[uint16]bool{}, "b-uuid"); err != nil {
+		// the file holds ONE document for all vBuckets: whatever subset is marked dirty, a save followed by a
+		// load returns every vBucket of the state (the expectation is copied first: the store must not be
+		// trusted to leave the caller's map alone)
+		want := map[uint16]models.CheckpointDocument{}
+		dirty := map[uint16]bool{}
+		for id, d := range state {
+			c := *d
+			cp := *d.Checkpoint
+			sn := *d.Checkpoint.Snapshot
+			cp.Snapshot = &sn
+			c.Checkpoint = &cp
+			want[id] = c
+			if (int(id)+cases)%3 != 0 {
+				dirty[id] = (int(id)+cases)%2 == 0
+			}
+		}
+		if err := f.Save(state, dirty, "b-uuid"); err != nil {
 			t.Fatalf("save: %v", err)
+		}
+		if len(state) != len(want) {
+			t.Errorf("VIOLATION C02: file backend: Save removed %d of %d vBuckets from the state it was handed", len(want)-len(state), len(want))
+			return
 		}
 		before, _ := os.ReadFile(f.fileName)
 		for name, md := range map[string]Metadata{"file": f, "read-only": NewReadMetadata(f)} {
@@ -35,7 +55,8 @@ func TestVerifBoundedFileMetadata(t *testing.T) {
 			if err != nil || !exist || got == nil {
 				t.Fatalf("%s load: exist=%v err=%v", name, exist, err)
 			}
-			for id, want := range state {
+			for id, w := range want {
+				want := &w
 				d, ok := got.Load(id)
 				if !ok || d == nil || d.Checkpoint == nil || d.Checkpoint.Snapshot == nil || *d.Checkpoint.Snapshot != *want.Checkpoint.Snapshot ||
 					d.Checkpoint.VbUUID != want.Checkpoint.VbUUID || d.Checkpoint.SeqNo != want.Checkpoint.SeqNo || d.BucketUUID != want.BucketUUID {
@@ -69,6 +90,23 @@ func TestVerifBoundedFileMetadata(t *testing.T) {
 			st[uint16(r.Intn(1024))] = doc(r.Uint64(), r.Uint64(), r.Uint64(), r.Uint64())
 		}
 		round(st)
+	}
+	// a checkpoint file that exists but cannot be read is an error, never "no checkpoint yet" (which would
+	// restart the vBuckets from zero or, with auto-reset latest, jump over unsettled events)
+	fault := &fileMetadata{fileName: dir} // a directory: os.ReadFile fails with EISDIR
+	if got, exist, err := fault.Load([]uint16{0, 1}, "b-uuid"); err == nil {
+		t.Errorf("VIOLATION C02: file backend: an unreadable checkpoint file loads as exist=%v state=%v without an error", exist, got != nil)
+	}
+	missing := &fileMetadata{fileName: filepath.Join(dir, "absent.json")}
+	if got, exist, err := missing.Load([]uint16{3, 4}, "b-uuid"); err != nil || exist || got == nil || got.Count() != 2 {
+		t.Errorf("VIOLATION C02: file backend: a missing checkpoint file must load as 'no checkpoint' with an empty document per vBucket (exist=%v err=%v)", exist, err)
+	} else {
+		got.Range(func(id uint16, d *models.CheckpointDocument) bool {
+			if d == nil || d.Checkpoint == nil || d.Checkpoint.Snapshot == nil || d.Checkpoint.SeqNo != 0 || d.Checkpoint.VbUUID != 0 || d.Checkpoint.Snapshot.StartSeqNo != 0 || d.Checkpoint.Snapshot.EndSeqNo != 0 || d.BucketUUID != "b-uuid" {
+				t.Errorf("VIOLATION C02: file backend: vb %d of a missing file loads as %+v, want the empty document", id, d)
+			}
+			return true
+		})
 	}
 	t.Logf("bounded C02 file/read-only metadata: %d round trips", cases)
 }
